@@ -457,7 +457,7 @@ func genMixed(t *rapid.T, profile string) *Case {
 			}
 		}
 	}
-	ops := rapid.SliceOfN(rapid.Custom(func(t *rapid.T) Op { return g.op(t) }), 1, 35).Draw(t, "ops")
+	ops := rapid.SliceOfN(rapid.Custom(func(t *rapid.T) Op { return g.op(t) }), minHistory(t, 35), 35).Draw(t, "ops")
 	c.Ops = append(c.Ops, ops...)
 	if profile == "C05" && pct(t, 10, "blockedcallee") {
 		appendBlockedCallee(t, c)
